@@ -38,6 +38,7 @@ func runC04(rt *rapid.T, st *stats.Collector) {
 		rounds:    rapid.IntRange(1, 3).Draw(rt, "rounds"),
 		withCtxDL: rapid.Bool().Draw(rt, "ctx-deadline"),
 		readTO:    rapid.SampledFrom([]time.Duration{0, 200 * time.Millisecond}).Draw(rt, "read-timeout"),
+		prior:     rapid.SampledFrom([]int{0, 0, 0, 1, 2}).Draw(rt, "earlier-exception-queries"),
 	}
 	fault := rapid.SampledFrom(faultKinds).Draw(rt, "fault")
 	if fault == "surplus-headers" && sc.name == "select" {
